@@ -27,6 +27,8 @@ def run(chk, tier):
         cr.check_builder_ops(chk, prog, cfg, rule="R12.2")
         cr.check_finish(chk, prog, cfg, rule="R1.6")
         check_eq_ord(chk, prog, cfg)
+    cr.check_debug_asserts(chk, rule="R12.4")
+    cr.check_total_ops(chk, rule="R12.4")
     n = len({i["construct"] for i in chk.instances if i["rule"] == "R12.3"})
     chk.floor("R12.3", n, 15 * 4, "15 key types x {PartialEq, Eq, PartialOrd, Ord}")
     chk.trusted += ["BTreeMap / Vec implementations", "the built-in derives of PartialEq/Eq/PartialOrd/Ord"]
